@@ -7,8 +7,9 @@
                                       GetBlob, GetBlobS3BlobID
       internal/delivery/parser/parser.go
                                       StoreMessagePerUserWithSharedDBAndS3 (the part loop:
-                                      threshold rule and the S3-ok / DB-error / S3-error /
-                                      local-error branches),
+                                      threshold rule, the S3-ok / DB-error / S3-error /
+                                      local-error branches, blobHoldsContent and the
+                                      give-back of the reference, fix 573e876),
                                       ReadPartContent (used by ReconstructMessageWithSharedDBAndS3,
                                       writePartContentWithS3 and fetch.go BODY[n]: [read_part])
 
@@ -121,9 +122,51 @@ Definition out_of_line (p : part) : bool :=
 Definition inline_row (p : part) : partrow := mkRow None (p_content p) (p_enc p) (p_content p).
 Definition blob_row (p : part) (id : nat) : partrow := mkRow (Some id) [] (p_enc p) (p_content p).
 
+(** parser.blobHoldsContent (fix 573e876): does the row that StoreBlob* found
+    or created hold exactly the part's octets?
+      storedS3ID != "" (the S3 branch stored the row): GetBlobS3BlobID is
+        (storedS3ID, "s3");
+      else: GetBlob == content — and GetBlob answers "" for EVERY S3 row, so an
+        empty part "is held" by any S3-form blob with its hash (bug kept). *)
+Definition blob_holds (bl : list blobrow) (id : nat) (content : str) (stored : option str) : bool :=
+  match get_blob bl id with
+  | None => false
+  | Some b =>
+      match stored with
+      | Some (c0 :: k0) =>
+          match b_form b with FS3 k' => str_eqb k' (c0 :: k0) | FLocal _ => false end
+      | _ =>
+          match b_form b with FLocal c => str_eqb c content | FS3 _ => str_eqb [] content end
+      end
+  end.
+
+(** db.DecrementBlobReference: reference_count - 1 where it is > 0.  (Its
+    "delete the row at 0" is not modelled: the reference is only ever given
+    back for a row that existed before with a count >= 1, see
+    Proof/BlobsInv.v give_back_keeps_row; its database error is ignored by the
+    caller and not modelled either.) *)
+Fixpoint decr_ref_from (i : nat) (bl : list blobrow) (id : nat) : list blobrow :=
+  match bl with
+  | [] => []
+  | b :: r => (if Nat.eqb i id then mkBlob (b_key b) (b_form b) (Nat.pred (b_refs b)) else b)
+              :: decr_ref_from (S i) r id
+  end.
+Definition decr_ref bl id := decr_ref_from 1 bl id.
+
+(** the tail of the out-of-line branch: keep the blob reference only if the
+    blob holds the part's exact octets; otherwise give the reference back and
+    keep the part inline *)
+Definition link_or_inline (p : part) (r : option nat) (bl : list blobrow) (stored : option str)
+  : partrow * list blobrow :=
+  match r with
+  | Some id => if blob_holds bl id (p_content p) stored then (blob_row p id, bl)
+               else (inline_row p, decr_ref bl id)
+  | None => (inline_row p, bl)
+  end.
+
 (** body of the part loop of StoreMessagePerUserWithSharedDBAndS3.
     [s3on] = s3Storage != nil && s3Storage.IsEnabled() of the WRITER;
-    [o] object-store oracle, [d] database oracle. *)
+    [o] object-store oracle, [d] database oracle (StoreBlob* calls). *)
 Definition store_part (s3on : bool) (w : world) (p : part) (o d : oracle)
   : partrow * world * oracle * oracle :=
   if out_of_line p then
@@ -131,23 +174,20 @@ Definition store_part (s3on : bool) (w : world) (p : part) (o d : oracle)
       match s3_store (w_objs w) (p_content p) o with
       | (Some k, objs', o', lg) =>
           let '(d0, d') := take d in
-          match store_blob (FS3 k) (w_blobs w) (p_enc p) (p_content p) d0 with
-          | (Some id, bl') => (blob_row p id, mkW bl' objs' (w_msgs w) (w_log w ++ lg), o', d')
-          | (None, bl') => (inline_row p, mkW bl' objs' (w_msgs w) (w_log w ++ lg), o', d')
-          end
+          let '(r, bl') := store_blob (FS3 k) (w_blobs w) (p_enc p) (p_content p) d0 in
+          let '(row, bl'') := link_or_inline p r bl' (Some k) in
+          (row, mkW bl'' objs' (w_msgs w) (w_log w ++ lg), o', d')
       | (None, objs', o', lg) =>
           let '(d0, d') := take d in
-          match store_blob (FLocal (p_content p)) (w_blobs w) (p_enc p) (p_content p) d0 with
-          | (Some id, bl') => (blob_row p id, mkW bl' objs' (w_msgs w) (w_log w ++ lg), o', d')
-          | (None, bl') => (inline_row p, mkW bl' objs' (w_msgs w) (w_log w ++ lg), o', d')
-          end
+          let '(r, bl') := store_blob (FLocal (p_content p)) (w_blobs w) (p_enc p) (p_content p) d0 in
+          let '(row, bl'') := link_or_inline p r bl' None in
+          (row, mkW bl'' objs' (w_msgs w) (w_log w ++ lg), o', d')
       end
     else
       let '(d0, d') := take d in
-      match store_blob (FLocal (p_content p)) (w_blobs w) (p_enc p) (p_content p) d0 with
-      | (Some id, bl') => (blob_row p id, mkW bl' (w_objs w) (w_msgs w) (w_log w), o, d')
-      | (None, bl') => (inline_row p, mkW bl' (w_objs w) (w_msgs w) (w_log w), o, d')
-      end
+      let '(r, bl') := store_blob (FLocal (p_content p)) (w_blobs w) (p_enc p) (p_content p) d0 in
+      let '(row, bl'') := link_or_inline p r bl' None in
+      (row, mkW bl'' (w_objs w) (w_msgs w) (w_log w), o, d')
   else (inline_row p, w, o, d).
 
 Fixpoint store_parts (s3on : bool) (w : world) (ps : list part) (o d : oracle) (acc : list partrow)
@@ -245,20 +285,22 @@ Definition read_failed (s3on : bool) (w : world) (row : partrow) (o : oracle) : 
   end.
 
 (** ---- finding classes (decidable, on the history's state and the row) *)
-Inductive finding := DedupEncoding.
+Inductive finding := EmptyPartS3Blob.
 
 Definition form_is_own (f : form) (own : str) : bool :=
   match f with FLocal c => str_eqb c own | FS3 k => str_eqb k (okey own) end.
 
-(** DedupEncoding: the row points at a blob whose stored form is not this
-    part's text (an earlier writer with the same decoded hash won). *)
+(** EmptyPartS3Blob: the row points at a blob whose stored form is not this
+    part's text.  Since fix 573e876 this is only reachable for an EMPTY part
+    linked, by a writer that did not itself put it into S3, to an S3-form blob
+    with the same decoded hash (c15_residual_class_is_empty_s3). *)
 Definition classify (w : world) (row : partrow) : option finding :=
   match r_blob row with
   | None => None
   | Some id =>
       match get_blob (w_blobs w) id with
       | None => None
-      | Some b => if negb (form_is_own (b_form b) (r_own row)) then Some DedupEncoding else None
+      | Some b => if negb (form_is_own (b_form b) (r_own row)) then Some EmptyPartS3Blob else None
       end
   end.
 
